@@ -99,6 +99,13 @@ func New(mode string, seed int64, nstr int) *Table {
 			nstr = len(t.Strs)
 		}
 		sort.Strings(t.Strs[:nstr])
+	case "bounds":
+		// ints at the edges of the 8-, 16- and 32-bit ranges (tokens 0..4 are -129, -128, 127, 128, 129), strictly increasing
+		t.Strs = pick(PlainKeys)
+		ints := []int{-2147483649, -2147483648, -32769, -32768, -129, -128, 127, 128, 129, 255, 256, 32767, 32768, 65535, 65536, 2147483648}
+		for i, v := range ints {
+			t.Ints[i-4] = v
+		}
 	case "tfdots":
 		// tree-form reads: the first two keys are path-safe, the others spell paths over them ("a.b" next to a -> b): a path
 		// must be resolved segment by segment, never looked up as one field name. Order as listed (no Sort in these configs).
@@ -162,6 +169,13 @@ func NewTF(seed int64, nstr int) *Table {
 	sort.Strings(p[:nstr])
 	t.Strs = p
 	return t.finish()
+}
+
+// WithInt maps one more int token to a chosen value.
+func (t *Table) WithInt(tok int, v int) *Table {
+	t.Ints[tok] = v
+	t.revInt[v] = tok
+	return t
 }
 
 // WithFloat maps one more float token to a chosen value (used by the trace driver for the infinities).
